@@ -64,6 +64,12 @@ def run(ctx):
     for algo in ("DDPG", "TD3", "PPO", "MADDPG", "MATD3", "IPPO"):
         for j, ops in enumerate(deep):
             jobs.append((algo, "deep", ops, 4, ctx.seed + 300 + j, False))
+    # pre-training mutation: learning rates mutated before the optimizer ever stepped, then selection clones the agent and the
+    # clone learns without a mutation that would rebuild its optimizer
+    pre = [("create", 1, 70), ("mutate", 1, "hp"), ("clone", 1, 2, 1), ("mutate", 2, "none"), ("learn", 2, 1), ("learn", 1, 2),
+           ("mutate", 2, "hp"), ("clone", 2, 3, 2), ("learn", 3, 3), ("mutate", 3, "param"), ("learn", 3, 4)]
+    for algo in zoo.ALGOS:
+        jobs.append((algo, "vector", pre, 4, ctx.seed + 400, "lr"))
     traces = ec.run_scripts(jobs)
     for t, j in zip(traces, jobs):
         ctx.case((j[0], j[1], str(j[2])), nontrivial=any(o[0] in ("mutate", "mutpop") and o[-1] != "none" for o in j[2]))
